@@ -46,6 +46,10 @@ def token_groups(chk):
                                  "0b01", "0b1101", "0b", "0b12", "0B01", "0b0", "0b10", "0b" + "01" * 31, "0o17", "0d10", "1e3", "0b1", "b01", "hello", "a", "OP_BOGUS", "OP_", "-0", "--1", "+1", "1.5", "0x1g", "ff", "FF", "fF"]))
     subs = ["[]", "[OP_1]", "[OP_1 OP_2 OP_ADD]", "[0x00]", "[0x]", "[1 2]", "[ OP_DUP ]", "[OP_DUP  OP_DROP]", "[OP_DUP\tOP_DROP]", "[OP_DUP\nOP_DROP]", "[OP_DUP # comment\nOP_DROP]",
             "[# only a comment\n]", "[OP_1\r\nOP_2\r\nOP_ADD]", "[OP_DUP\rOP_DROP]", "[0x0102\r\n]", "[OP_1 \r\n OP_2]", "[OP_1 # c\r\nOP_2\r\n]", "[7\r\n-5\r\nhello\r\n]", "[[OP_1\r\n]\r\n]", "[[OP_1]]", "[[OP_1] [OP_2] OP_ADD]", "[0x0102030405 [7 8] hello]", "[" + " ".join(["OP_NOP"] * 80) + "]", "[" + " ".join(["0x" + "11" * 40] * 8) + "]"]
+    # comments: glued to the token before them (name, number, hex, sub-script), at the start of the text, alone on a line, ended by LF / CR LF /
+    # the end of the text, inside nested sub-scripts, containing brackets-free text that reads like tokens
+    subs += ["[OP_1#one\nOP_2]", "[17#seventeen\nOP_DROP]", "[0x1234#data\n]", "[OP_1#]", "[OP_1#\n]", "[#\nOP_1]", "[#c\n#d\nOP_1 OP_2#e\n#f\nOP_ADD]", "[-5#neg\r\n6]", "[hello#w\nOP_1]",
+             "[OP_DUP#OP_DROP OP_1\nOP_2]", "[OP_1 #OP_2\nOP_3]", "[OP_1# 0x51 17\n OP_3#]", "[[OP_1#x\n]#y\n OP_2]", "[[7#a\n8]#b\n9#c\n]", "[0x#empty\nOP_1]", "[OP_1\t#tab\nOP_2]", "[1#1\n1]"]
     nest = "OP_1"
     for d in range(1, 9):
         nest = "[" + nest + " %d]" % d
